@@ -1,6 +1,7 @@
 import Srctools.Wire
 import Srctools.Model.Tok
 import Srctools.Model.TokC
+import Srctools.Model.C03Push
 import Srctools.Gen.Tok
 /-! Driver for the concrete chunked tokenizer model TokC (property C03).
 requests:
@@ -15,6 +16,10 @@ requests:
       position k iff bit k of m is set, e=1 inserts an empty chunk before every chunk and at the end;
       ci = N is `Tokenizer(str)`. "calls"[oi] = `_next_char` calls of the `Tokenizer(str)` run, "callsdiff" = every
       chunking whose call count differs from it.
+  {"op":"ops","opts":[b×7],"chunks":[…],"str":b,"fold":[…],"ops":["call"|"peek"|"push"|["line",n] …]}
+      → {"obs":[["call"|"peek",kind,[cp…],line] | ["push"] | ["line",n] | ["err",id,arg,line] …]}
+      client operations on ONE fresh tokenizer through BaseTokenizer's push-back layer (Model/C03Push.lean);
+      "push" pushes back the token last returned; stops at the first error.
 -/
 open Lean Tok
 
@@ -65,6 +70,32 @@ def chunking (s : List Char) (ci : Nat) : List (List Char) :=
   let base := if s.isEmpty then [] else cutAt (ci / 2) 0 s []
   if ci % 2 == 1 then withEmpties base else base
 
+def opOf (j : Json) : Except String TokC.Op :=
+  match j with
+  | .str "call" => pure .call
+  | .str "peek" => pure .peek
+  | .str "push" => pure .push
+  | .arr #[.str "line", n] => do pure (.setLine (← n.getNat?))
+  | _ => throw s!"bad op {j.compress}"
+
+def obsJson : TokC.OpObs → Json
+  | .tok op k v l => Json.arr #[Json.str (if op == 0 then "call" else "peek"), Json.num (JsonNumber.fromNat k),
+      Wire.codesOfStr v, Json.num (JsonNumber.fromNat l)]
+  | .push => Json.arr #[Json.str "push"]
+  | .line n => Json.arr #[Json.str "line", Json.num (JsonNumber.fromNat n)]
+  | .err e l => Json.arr #[Json.str "err", Json.num (JsonNumber.fromNat e.code.1),
+      Json.num (JsonNumber.fromNat e.code.2), Json.num (JsonNumber.fromNat l)]
+
+def srcOf (j : Json) : Except String TokC.Src := do
+  let cj ← (← j.getObjVal? "chunks").getArr?
+  let chunks ← cj.toList.mapM Wire.strOfCodes
+  let isStr ← j.getObjValAs? Bool "str"
+  if isStr then
+    match chunks with
+    | [c] => pure (TokC.Src.ofString c)
+    | _ => throw "str: need exactly one chunk"
+  else pure (TokC.Src.ofChunks chunks)
+
 def handle (j : Json) : Except String Json := do
   let op ← j.getObjValAs? String "op"
   match op with
@@ -107,6 +138,13 @@ def handle (j : Json) : Except String Json := do
           cdiffs := cdiffs.push (Json.arr #[num oi, num ci, num k])
     pure (Json.mkObj [("a", Json.arr as), ("n", num n), ("cdiff", Json.arr diffs),
                       ("calls", Json.arr calls), ("callsdiff", Json.arr cdiffs)])
+  | "ops" =>
+    let o ← optsOf (← j.getObjVal? "opts")
+    let f ← foldOf (← j.getObjVal? "fold")
+    let src ← srcOf j
+    let ops ← (← (← j.getObjVal? "ops").getArr?).toList.mapM opOf
+    let obs := TokC.runOps Gen.Tok.tables o f ops (TokC.PB.fresh { src := src }) none
+    pure (Json.mkObj [("obs", Json.arr (obs.map obsJson).toArray)])
   | "chunking" =>   -- self-test of the enumeration shared with the harness
     let s ← Wire.strOfCodes (← j.getObjVal? "s")
     let ci ← j.getObjValAs? Nat "ci"
